@@ -211,8 +211,29 @@ class DStore(object):
         return rid
 
 
+class HRelay(Relay):
+    """the repository's own HttpRelay under the proxying queue, against a loopback HTTP peer that answers as scripted"""
+
+    def __init__(self, log, act):
+        Relay.__init__(self)
+        from harness import hdrv
+        self.log, self.act = log, act
+        self.run = hdrv.HttpRun([act])
+        self.code = hdrv.ACTIONS[act][1]
+
+    def attempt(self, env, attempts):
+        n = len(env.recipients)
+        out = 'ok' if self.code == 250 else 'P' if self.code >= 500 else 'T'
+        self.log.append({'t': 'relay', 'result': 'http', 's': _sess(env), 'outs': [out] * n})
+        return self.run.relay.attempt(env, attempts)
+
+
 def make_queue(log, cfg):
     if cfg['proxy']:
+        if cfg['relay'].startswith('http:'):
+            hr = HRelay(log, cfg['relay'].split(':')[1])
+            cfg['_cleanup'] = hr.run.server.stop
+            return ProxyQueue(hr), None
         if cfg['relay'].startswith('pipe'):
             _, per, beh = cfg['relay'].split(':')
             return ProxyQueue(PRelay(log, beh, per == 'per')), None
@@ -426,6 +447,10 @@ def main():
                 if per == 'per' and nrcpt == 3 and 'K' not in beh and beh.count('o') not in (0, 3):
                     continue
                 cases.append(dict(proxy=True, policies=[], nrcpt=nrcpt, nenv=1, fail={}, slow=[], relay='pipe:%s:%s' % (per, ''.join(beh) + 'ooo'), realtime=True))
+    # ... and over the repository's own HTTP relay: every kind of answer of the next hop (a redirect is not a delivery)
+    for act in ('ok200', 'ok200body', 'ok204plain', 'redirect302', 'notmodified304', 'hdr550', 'hdr450', 'plain500', 'plain404', 'close', 'garbage'):
+        for nrcpt in (1, 2):
+            cases.append(dict(proxy=True, policies=[], nrcpt=nrcpt, nenv=1, fail={}, slow=[], relay='http:' + act, realtime=True))
     # slow storage: every third case with a gated write is run once more with seven seconds passing before each write ends
     cases += [dict(c, age=7) for j, c in enumerate([c for c in cases if c.get('slow')]) if j % 3 == 0]
     for cfg in cases:
@@ -433,13 +458,19 @@ def main():
             idx += 1
             if idx % nshards != shard:
                 continue
+            cfg = dict(cfg)
             ev = (smtp_case if edge == 'smtp' else wsgi_case)(cfg)
+            if cfg.get('_cleanup'):
+                try:
+                    cfg.pop('_cleanup')()
+                except Exception:  # noqa
+                    pass
             stats['executions'] += 1
             jc = dict(cfg)
             jc.setdefault('nsess', 1)
             jc.setdefault('store_pool', 0)
             jc['fail'] = {str(k): v for k, v in cfg['fail'].items()}
-            f.write(json.dumps({'id': shard + n * nshards, 'cls': edge + ('-proxy' if cfg['proxy'] else '') + ('-disk' if cfg.get('disk') else '') + ('pipe' if cfg['relay'].startswith('pipe') else '') + ('-split' if cfg['nenv'] > 1 else '') + ('-conc' if cfg.get('nsess', 1) > 1 else '') + ('-pool' if cfg.get('store_pool') else ''),
+            f.write(json.dumps({'id': shard + n * nshards, 'cls': edge + ('-proxy' if cfg['proxy'] else '') + ('-disk' if cfg.get('disk') else '') + ('pipe' if cfg['relay'].startswith('pipe') else 'http' if cfg['relay'].startswith('http:') else '') + ('-split' if cfg['nenv'] > 1 else '') + ('-conc' if cfg.get('nsess', 1) > 1 else '') + ('-pool' if cfg.get('store_pool') else ''),
                                 'cfg': jc, 'ev': ev}, separators=(',', ':')) + '\n')
             n += 1
     f.write(json.dumps({'summary': stats}) + '\n')
